@@ -130,14 +130,17 @@ func (s *Solver) readLine() (string, error) {
 }
 
 // Check runs (check-sat). Any error line makes the answer Unknown.
-func (s *Solver) Check() Result {
+func (s *Solver) Check() Result { return s.CheckCmd("(check-sat)") }
+
+// CheckCmd sends a check command and reads the verdict.
+func (s *Solver) CheckCmd(cmd string) Result {
 	t0 := time.Now()
 	defer func() { s.Time += time.Since(t0) }()
 	if s.dead {
 		s.Queries[Unknown]++
 		return Unknown
 	}
-	s.send("(check-sat)")
+	s.send(cmd)
 	for {
 		l, err := s.readLine()
 		if err != nil {
